@@ -108,6 +108,14 @@ def run(rep: Report, tier: str) -> None:
     _check_structure(rep, rc, m)
     _check_tokens(rep, rc, m)
 
+    # the repeated-table guard asks "is this table's set already non-empty?": every data row must therefore be in its set before the next row is read
+    from . import c11
+
+    rf = rep.rule("C12.f", "each data row is added to its table's set as soon as it is read (C11.d restated): the structure guards that test a set's emptiness see every earlier row", floor=8)
+    sub11 = Report("C11", tier)
+    c11.run(sub11, tier)
+    rep.absorb(sub11, rf, ("C11.d",), "row loop")
+
     # ---------------------------------------------------------------- C12.d
     rd = rep.rule("C12.d", "config and command line: unknown/repeated/empty parts raise; -m restricted, defaults to 'not given', conflicts with the config section", floor=14)
     _check_config_cli(rep, rd, m)
